@@ -1,12 +1,11 @@
 """C04 — a failing request fails alone, with its original error."""
 from contracts.worker import UNITS_SINGLE, UNITS_BATCH, ASSUMPTIONS as W_ASSUMPTIONS
 from contracts.server import GatherUnit
-from contracts.servlet import UNITS_FORWARD
+from contracts.servlet import UNITS_FORWARD, UNITS_DEQUEUE
 from contracts.c15 import UNITS as C15_UNITS
-UNITS = list(UNITS_SINGLE) + list(UNITS_BATCH) + list(UNITS_FORWARD) + [GatherUnit] + list(C15_UNITS)
+UNITS = list(UNITS_SINGLE) + list(UNITS_BATCH) + list(UNITS_FORWARD) + list(UNITS_DEQUEUE) + [GatherUnit] + list(C15_UNITS)
 ASSUMPTIONS = tuple(W_ASSUMPTIONS)
-NOT_DECIDED = ('EnsembleServlet._dequeue fail_fast / all-failed rules: bounded stand-in (runtime battery over all arrival orders of 3 members)',
-               'traceback text content beyond "contains what format_exception returned" (C15)')
-BOUNDED = [{'function': 'EnsembleServlet._dequeue', 'method': 'runtime scenario replay/scenarios/c02_server_battery.py', 'bound': '6 arrival orders x 6 failing-member sets x fail_fast on/off', 'counted_as_proved': False}]
-SCENARIOS = [('', 'replay/scenarios/c02_server_battery.py')]
-ALWAYS_RUN_SCENARIOS = True      # the ensemble rules are decided only by the bounded stand-in (about 15 s)
+NOT_DECIDED = ('traceback text content beyond "contains what format_exception returned" (C15)',)
+BOUNDED = list(__import__('contracts.c15', fromlist=['BOUNDED']).BOUNDED)        # the EnsembleError constructor/pickling branch of C15 (shared units)
+SCENARIOS = [('', 'replay/scenarios/c02_server_battery.py'), ('', 'replay/scenarios/c15_hops.py')]
+ALWAYS_RUN_SCENARIOS = True      # C15's EnsembleError branch is decided only by the bounded stand-in; the battery is fast
